@@ -463,6 +463,16 @@ func (g *Gen) str() string {
 		return string(r.Bytes(r.Range(1, 6)))
 	case 2:
 		return []string{"123", "a b", `"`, "§", "日本", "1b", "{"}[r.Intn(7)]
+	case 3:
+		// lengths whose 16-bit prefix has a non-zero high byte, and the ones around 255/256
+		if r.Intn(3) == 0 {
+			n := []int{9, 100, 255, 256, 257, 300, 4000, 32767}[r.Intn(8)]
+			b := make([]byte, n)
+			for i := range b {
+				b[i] = 'a' + byte((i+n)%26)
+			}
+			return string(b)
+		}
 	}
 	n := r.Range(1, 8)
 	b := make([]byte, n)
